@@ -23,7 +23,12 @@
     hypothesis of the core law for every pass on every text of the study, and
     the WSREGEX scan is exact.  Its complement is the union of the two known
     findings: K4a ([sig_K4a]: a WSREGEX capture swallowed "$", "(" or ")") and
-    K4b ([sig_K4b = negb hyg]: token text arises from substituted values). *)
+    K4b ([sig_K4b = negb hyg]: token text arises from substituted values); K4c
+    ([sig_K4c]: a step name with a character outside the WSREGEX class, whose
+    workspace token is therefore never recognised) lies inside K4b's signature
+    and is told apart by its own.  Directory names come from the SafePath model
+    ([msp] = make_safe_path through [SafePath.sanitize], alphabet regenerated
+    from utils.py), so step names may hold characters that it deletes. *)
 From MWF Require Import Base.Str Expand.PyStr Expand.Subst Expand.SubstProofs Expand.SubstPasses
      Expand.SubstExists Expand.SubstWitness.
 From Coq Require Import Permutation.
@@ -319,6 +324,15 @@ Theorem C09_K4b_refuted : exists c : case,
 Proof. exact K4b_refuted. Qed.
 Print Assumptions C09_K4b_refuted.
 
+(** K4c: the WSREGEX class has no blank (nor quote, "@", "#"): for a step named
+    "run sim" the token $(run sim.workspace) is never recognised and survives
+    in the script, silently. *)
+Theorem C09_K4c_refuted : exists c : case,
+  valid_case c = true /\ sig_K4a c = false /\ sig_K4c c = true /\
+  C09_ok c (stage Model c) = false.
+Proof. exact K4c_refuted. Qed.
+Print Assumptions C09_K4c_refuted.
+
 (* ======================================================================== *)
 (** * Non-vacuity: the hypotheses are satisfiable, with every kind of token *)
 Example C09_hypotheses_satisfiable :
@@ -330,6 +344,18 @@ Example C09_hypotheses_satisfiable :
   script_of (s "c") (stage Model good_case) =
     Some (script_text (s "/bin/bash") (s "ls /out/a /out")).
 Proof. exact good_facts. Qed.
+
+(** ... also with a funnel parent whose name make_safe_path rewrites
+    ("run:sim" lives in /out/runsim), un-parameterised and parameterised consumer *)
+Example C09_unsafe_name_satisfiable :
+  valid_case colon_case = true /\ hyg colon_case = true /\ sig_K4c colon_case = false /\
+  script_of (s "collect") (stage Model colon_case) =
+    Some (script_text (s "/bin/bash") (s "ls /out/runsim")) /\
+  script_of (s "compare_P.2") (stage Model colon_case) =
+    Some (script_text (s "/bin/bash") (s "cmp 2 /out/runsim")) /\
+  script_of (s "run:sim_P.2") (stage Model colon_case) =
+    Some (script_text (s "/bin/bash") (s "sim 2")).
+Proof. exact colon_facts. Qed.
 
 Example C09_core_law_hypotheses_satisfiable :
   let T := [(s "$(A)", s "1"); (s "$(A.label)", s "A.1")] in
